@@ -470,6 +470,10 @@ func Attr(s *Src, kind int) bgp.PathAttributeInterface {
 		case 2:
 			n = 300 + s.Intn(700)
 		}
+		if s.Chance(1, 5) {
+			// the Extended Length bit on a short value: legal on the wire, kept by the decoder
+			flags |= bgp.BGP_ATTR_FLAG_EXTENDED_LENGTH
+		}
 		return bgp.NewPathAttributeUnknown(flags, Pick(s, unknownAttrTypes), s.Bytes(n))
 	}
 	return exoticAttrFn(s, kind-numBasicAttrKinds)
